@@ -1617,6 +1617,20 @@ class Summariser:
     # ---- calls
     def e_Call(self, node, st):
         f = node.func
+        if isinstance(f, ast.Name) and f.id == "map" and "map" not in st.env and len(node.args) == 2 and not node.keywords:
+            # map(T.__getitem__, xs) and map(lambda x: E, xs) are the generators (T[x] for x in xs) and (E for x in xs)
+            g0 = node.args[0]
+            gen = None
+            if isinstance(g0, ast.Attribute) and g0.attr == "__getitem__":
+                v_ = ast.Name(id="__map_item", ctx=ast.Load())
+                gen = ast.GeneratorExp(elt=ast.Subscript(value=g0.value, slice=v_, ctx=ast.Load()),
+                                       generators=[ast.comprehension(target=ast.Name(id="__map_item", ctx=ast.Store()), iter=node.args[1], ifs=[], is_async=0)])
+            elif isinstance(g0, ast.Lambda) and len(g0.args.args) == 1 and not g0.args.defaults and not g0.args.vararg and not g0.args.kwarg and not g0.args.kwonlyargs:
+                gen = ast.GeneratorExp(elt=g0.body, generators=[ast.comprehension(target=ast.Name(id=g0.args.args[0].arg, ctx=ast.Store()), iter=node.args[1], ifs=[], is_async=0)])
+            if gen is not None:
+                ast.copy_location(gen, node)
+                ast.fix_missing_locations(gen)
+                return self._comp(gen, st, "gen")
         # receiver / function term first, then arguments (python order)
         if isinstance(f, ast.Attribute):
             base = self.expr(f.value, st)
